@@ -148,7 +148,6 @@ func (v *valuesVisitor) valueSatisfiesOperationListType(value ast.Value, operati
 			// [] empty list is a valid input for [item!] lists
 			return true
 		}
-		listItemType = v.operation.Types[listItemType].OfType
 	}
 
 	valid := true
@@ -245,7 +244,6 @@ func (v *valuesVisitor) valueSatisfiesListType(value ast.Value, definitionTypeRe
 			// [] empty list is a valid input for [item!] lists
 			return true
 		}
-		listItemType = v.definition.Types[listItemType].OfType
 	}
 
 	valid := true
